@@ -7,6 +7,7 @@ import datetime
 from functools import partial
 import logging
 import os
+import pickle
 import re
 from warnings import warn
 
@@ -1665,7 +1666,32 @@ class FlowProposal(RejectionProposal):
 
         # Flow might have exited before any weights were saved.
         if weights_file is not None:
+            # FlowModel.save_weights moves the previous weights to
+            # <weights_file>.old before writing the new file, so if the
+            # process died whilst saving, the weights file is missing or
+            # incomplete and the previous weights must be restored.
+            backup_file = weights_file + ".old"
             if os.path.exists(weights_file):
+                try:
+                    self.flow.reload_weights(weights_file)
+                except (
+                    RuntimeError,
+                    OSError,
+                    EOFError,
+                    pickle.UnpicklingError,
+                ):
+                    logger.warning(
+                        f"Could not load weights from {weights_file}, "
+                        f"restoring {backup_file}"
+                    )
+                    os.replace(backup_file, weights_file)
+                    self.flow.reload_weights(weights_file)
+            elif os.path.exists(backup_file):
+                logger.warning(
+                    f"Weights file {weights_file} is missing, "
+                    f"restoring {backup_file}"
+                )
+                os.replace(backup_file, weights_file)
                 self.flow.reload_weights(weights_file)
         else:
             logger.warning("Could not reload weights for flow")
